@@ -113,27 +113,32 @@ func SameGeometry(what string, got, want []oracle.Seg, tol float64) error {
 		}
 	}
 	sg, sw := Subs(got), Subs(want)
-	// subpaths of (near) zero length may be dropped on either side
-	filter := func(in []Sub) []Sub {
-		var out []Sub
-		for _, s := range in {
-			l := 0.0
-			for _, x := range s.Segs {
-				l += oracle.SegLength(x, 16)
-			}
-			if l > tol {
-				out = append(out, s)
-			}
+	// subpaths are matched in order; a subpath whose length is within a few tolerances may be missing on either side
+	// (a fixed cut-off at the tolerance itself would flip for a subpath of just that length)
+	length := func(s Sub) float64 {
+		l := 0.0
+		for _, x := range s.Segs {
+			l += oracle.SegLength(x, 16)
 		}
-		return out
+		return l
 	}
-	sg, sw = filter(sg), filter(sw)
-	if len(sg) != len(sw) {
-		return fmt.Errorf("%s: %d subpaths expected, %d found", what, len(sw), len(sg))
+	match := func(a, b Sub) bool {
+		return a.Closed == b.Closed && a.Start.Dist(b.Start) <= tol && a.End.Dist(b.End) <= tol
 	}
-	for i := range sg {
-		if sg[i].Closed != sw[i].Closed || sg[i].Start.Dist(sw[i].Start) > tol || sg[i].End.Dist(sw[i].End) > tol {
-			return fmt.Errorf("%s: subpath %d expected from %v to %v (closed=%v), found from %v to %v (closed=%v)", what, i, sw[i].Start, sw[i].End, sw[i].Closed, sg[i].Start, sg[i].End, sg[i].Closed)
+	i, j := 0, 0
+	for i < len(sg) || j < len(sw) {
+		switch {
+		case i < len(sg) && j < len(sw) && match(sg[i], sw[j]):
+			i++
+			j++
+		case i < len(sg) && length(sg[i]) <= 4*tol:
+			i++
+		case j < len(sw) && length(sw[j]) <= 4*tol:
+			j++
+		case i < len(sg) && j < len(sw):
+			return fmt.Errorf("%s: subpath %d expected from %v to %v (closed=%v), found from %v to %v (closed=%v)", what, j, sw[j].Start, sw[j].End, sw[j].Closed, sg[i].Start, sg[i].End, sg[i].Closed)
+		default:
+			return fmt.Errorf("%s: %d subpaths expected, %d found", what, len(sw), len(sg))
 		}
 	}
 	return nil
